@@ -700,7 +700,230 @@ fn burst_ids(threads: usize, per_thread: usize, rep: &mut Report) {
     let _ = rec::take_log();
 }
 
+
+// ---------------------------------------------------------------------------------------------------------
+// Ids that are string prefixes of one another.  Session ids are decimal numbers inside `#_scxml_<id>` and invoke
+// ids are free text inside `#_<id>`: a comparison by `starts_with` instead of equality only shows when one id is a
+// proper prefix of another one that is in use (session 2 and session 20, invoke `pk` and invoke `pk1`).  The
+// session counter is process wide, so this scenario runs first in the process, burns ids with sessions that end at
+// once and thereby places a third session T and a second parent A2 at ids that start with the first parent's id.
+fn pfx_child(hello: &str) -> String {
+    format!(
+        r##"<scxml xmlns="http://www.w3.org/2005/07/scxml" version="1.0" datamodel="rfsm-expression" initial="c">
+ <state id="c">
+  <onentry><script>mark('{hello}')</script></onentry>
+  <transition event="to"><script>{p}</script><send eventexpr="'m.' + _event.data.n" targetexpr="'#_scxml_' + _event.data.t"><param name="from" expr="'pfx'"/></send><script>mark('sent', _event.data.n)</script></transition>
+{recv}
+ </state>
+</scxml>"##,
+        hello = hello,
+        p = EVP,
+        recv = receive_part()
+    )
+}
+
+fn pfx_parent() -> String {
+    format!(
+        r##"<scxml xmlns="http://www.w3.org/2005/07/scxml" version="1.0" datamodel="rfsm-expression" initial="s">
+ <state id="s">
+  <invoke id="pk"><content>{c0}</content></invoke>
+  <invoke id="pk1"><content>{c1}</content></invoke>
+  <transition event="tell"><send event="to" target="#_pk"><param name="t" expr="_event.data.t"/><param name="n" expr="_event.data.n"/></send></transition>
+  <transition event="tell1"><send event="to" targetexpr="'#_' + 'pk1'"><param name="t" expr="_event.data.t"/><param name="n" expr="_event.data.n"/></send></transition>
+{recv}
+ </state>
+</scxml>"##,
+        c0 = pfx_child("hello-pk"),
+        c1 = pfx_child("hello-pk1"),
+        recv = receive_part()
+    )
+}
+
+fn prefix_ids(rep: &mut Report) {
+    use rufsm::datamodel::Data;
+    use rufsm::fsm::{Event, ParamPair};
+    let mut case = Case::new();
+    let pxml = pfx_parent();
+    let mut a = case.start(parse_xml(&pxml).unwrap());
+    wait_stable(&mut a, 0);
+    let aid = a.session.session_id;
+    if aid > 40 {
+        // would need more than ~400 throw-away sessions; the scenario is placed first in the process so that this
+        // does not happen in practice
+        rep.count("prefix_scenario_skipped_ids_already_large", 1);
+        a.finish();
+        let _ = rec::take_log();
+        return;
+    }
+    // burn ids up to aid*10 - 1
+    let filler = r##"<scxml xmlns="http://www.w3.org/2005/07/scxml" version="1.0" datamodel="null" initial="f"><final id="f"/></scxml>"##;
+    let mut burned = 0u64;
+    loop {
+        let mut f = case.start(parse_xml(filler).unwrap());
+        let id = f.session.session_id;
+        f.finish();
+        burned += 1;
+        if id + 1 >= aid * 10 {
+            break;
+        }
+        if burned > 500 {
+            break;
+        }
+    }
+    let mut t = case.start(parse_xml(&sibling_doc("rfsm-expression")).unwrap());
+    wait_stable(&mut t, 0);
+    let tid = t.session.session_id;
+    let mut a2 = case.start(parse_xml(&pxml).unwrap());
+    wait_stable(&mut a2, 0);
+    let a2id = a2.session.session_id;
+    rep.count("prefix_scenario_throwaway_sessions", burned);
+    let is_pfx = |short: u32, long: u32| long != short && long.to_string().starts_with(&short.to_string());
+    if !is_pfx(aid, tid) || !is_pfx(aid, a2id) {
+        rep.inconclusive(&format!("prefix scenario: ids {} / {} / {} do not have the intended prefix relation", aid, tid, a2id));
+        a.finish();
+        a2.finish();
+        t.finish();
+        let _ = rec::take_log();
+        return;
+    }
+    let tell = |r: &Running, ev: &str, target: u32, n: &str| {
+        let mut e = Event::new_simple(ev);
+        e.param_values = Some(vec![ParamPair::new("t", &Data::Integer(target as i64)), ParamPair::new("n", &Data::String(n.to_string()))]);
+        r.send_event(e);
+    };
+    // (name, sending parent, which child, target session)
+    //  px1: child pk  of A  -> T   (T's id starts with the id of the sender's parent)
+    //  px4: child pk1 of A  -> T   (addressed through the invoke id that has `pk` as prefix)
+    //  px3: child pk  of A  -> A2  (ditto, and A2 is itself a parent)
+    //  px2: child pk  of A2 -> A   (the target's id is a prefix of the id of the sender's parent)
+    //  px5: child pk1 of A2 -> T   (neither is a prefix of the other: control)
+    tell(&a, "tell", tid, "px1");
+    tell(&a, "tell1", tid, "px4");
+    tell(&a, "tell", a2id, "px3");
+    tell(&a2, "tell", aid, "px2");
+    tell(&a2, "tell1", tid, "px5");
+    let names = ["px1", "px4", "px3", "px2", "px5"];
+    let t0 = std::time::Instant::now();
+    let all_sent = loop {
+        let l = rec::snapshot_log();
+        let n = names.iter().filter(|n| l.iter().any(|e| matches!(&e.ev, Ev::Mark { tag, args, .. } if tag == "sent" && matches!(args.first(), Some(V::Str(s)) if s == *n)))).count();
+        if n == names.len() {
+            break true;
+        }
+        if t0.elapsed() > Duration::from_secs(90) {
+            break false;
+        }
+        std::thread::sleep(Duration::from_millis(5));
+    };
+    // the `<send>`s have returned: every event is in its target's queue (or was dropped).  One host event behind them
+    // per receiver; when it has been processed, so has everything before it, and the replies are queued at the children.
+    let mut fenced = true;
+    for r in [&t, &a, &a2] {
+        r.send("bar.h");
+    }
+    let t1 = std::time::Instant::now();
+    loop {
+        let l = rec::snapshot_log();
+        let n = [tid, aid, a2id].iter().filter(|sid| l.iter().any(|e| matches!(&e.ev, Ev::Mark { tag, args, session, .. } if tag == "ev" && session == *sid && matches!(args.first(), Some(V::Str(s)) if s == "bar.h")))).count();
+        if n == 3 {
+            break;
+        }
+        if t1.elapsed() > Duration::from_secs(90) {
+            fenced = false;
+            break;
+        }
+        std::thread::sleep(Duration::from_millis(5));
+    }
+    // ending the parents cancels the children, which process what is queued before the cancel event
+    let ended = a.finish() & a2.finish();
+    let t2 = std::time::Instant::now();
+    let ttr = t.tracer;
+    let kids_ended = loop {
+        if rec::session_threads_of().iter().filter(|(tr, fin)| *tr != ttr && !*fin).count() == 0 {
+            break true;
+        }
+        if t2.elapsed() > Duration::from_secs(90) {
+            break false;
+        }
+        std::thread::sleep(Duration::from_millis(5));
+    };
+    t.finish();
+    let log = rec::take_log();
+    if !(all_sent && fenced && ended && kids_ended) {
+        rep.inconclusive("prefix scenario: a watchdog fired (sends / fence / end of sessions not observed)");
+        return;
+    }
+    rep.evaluations += 1;
+    let w = json!({"scenario": "ids that are prefixes of one another", "parent_xml": pxml, "session_ids": {"A": aid, "T": tid, "A2": a2id}});
+    // children by hello marks
+    let kid = |parent: u32, tag: &str| {
+        log.iter().find_map(|e| match &e.ev {
+            Ev::Mark { tag: t, session, parent_session, .. } if t == tag && *parent_session == Some(parent) => Some(*session),
+            _ => None,
+        })
+    };
+    let (c_a, c1_a, c_a2, c1_a2) = match (kid(aid, "hello-pk"), kid(aid, "hello-pk1"), kid(a2id, "hello-pk"), kid(a2id, "hello-pk1")) {
+        (Some(x), Some(y), Some(z), Some(u)) => (x, y, z, u),
+        _ => {
+            rep.violation("child-not-started", "prefix scenario: an invoked child never ran", w);
+            return;
+        }
+    };
+    // which child executed the send of each name (the `to` event must have gone to the invoke id that was named)
+    let sender_of = |n: &str| {
+        log.iter().find_map(|e| match &e.ev {
+            Ev::Mark { tag, args, session, .. } if tag == "sent" && matches!(args.first(), Some(V::Str(s)) if s == n) => Some(*session),
+            _ => None,
+        })
+    };
+    let plan = [("px1", c_a, tid), ("px4", c1_a, tid), ("px3", c_a, a2id), ("px2", c_a2, aid), ("px5", c1_a2, tid)];
+    for (n, sender, target) in plan {
+        if sender_of(n) != Some(sender) {
+            rep.violation(
+                "invoke-id-target-reached-other-child",
+                &format!("prefix scenario: the event addressed to the invoke of session {} was processed by session {:?}", sender, sender_of(n)),
+                w.clone(),
+            );
+            continue;
+        }
+        for (name, at, from) in [(format!("m.{}", n), target, sender), (format!("reply.m.{}", n), sender, target)] {
+            let got: Vec<(u32, &Vec<V>)> = log
+                .iter()
+                .filter_map(|e| match &e.ev {
+                    Ev::Mark { tag, args, session, .. } if tag == "ev" && matches!(args.first(), Some(V::Str(s)) if *s == name) => Some((*session, args)),
+                    _ => None,
+                })
+                .collect();
+            rep.count("prefix_scenario_events_judged", 1);
+            if got.is_empty() {
+                rep.violation(
+                    "event-not-delivered:id-is-prefix-of-another-id",
+                    &format!("prefix scenario: {} sent by session {} to #_scxml_{} was never processed (sessions A={} T={} A2={})", name, from, at, aid, tid, a2id),
+                    w.clone(),
+                );
+                continue;
+            }
+            if got.len() > 1 || got[0].0 != at {
+                rep.violation(
+                    "event-delivered-elsewhere:id-is-prefix-of-another-id",
+                    &format!("prefix scenario: {} for session {} was processed by {:?}", name, at, got.iter().map(|g| g.0).collect::<Vec<_>>()),
+                    w.clone(),
+                );
+                continue;
+            }
+            let args = got[0].1;
+            let origin_ok = matches!(args.get(3), Some(V::Str(o)) if *o == format!("#_scxml_{}", from));
+            if !origin_ok {
+                rep.violation("wrong-origin", &format!("prefix scenario: {} arrived with origin {:?}, sent by session {}", name, args.get(3), from), w.clone());
+            }
+            rep.nontrivial_key(&format!("pfx:{}", name));
+        }
+    }
+    rep.count("prefix_scenarios_completed", 1);
+}
+
 pub fn run(args: &Args, rep: &mut Report) {
+    prefix_ids(rep);
     let dms: Vec<&str> = if cfg!(feature = "full") { vec!["rfsm-expression", "ecmascript"] } else { vec!["rfsm-expression"] };
     let reps = args.scale(1, 6);
     for _ in 0..reps {
